@@ -31,7 +31,7 @@ CHECKS = {
         require={'V:non-contiguous': 0.03, 'mixed-contiguity': 0.02, '__nontrivial__': 0.2},
         pkg="c02", level="exploration",
         rule="rapid-generated views (classes forced: whole, leading rows, row-gapped, column, stepped, single element, extent-1 dims, slice chains to depth 3, reshaped) of all 8 element types and both back-ends; for each view: Unroll, Contiguous, Maximum/Minimum, "
-             "ReshapeFast, Reshape/MustReshape to right and wrong sizes, aliasing of reshape/unroll results, and one binary operation (CopyFrom, ApplySlice, Scale, AddTo, ApplyFunc1) against a second view of either contiguity (Scale / AddTo / ApplyFunc1 in one case of five with the destination itself as the source), all compared with the row-major element-wise definition on the extensional model; "
+             "ReshapeFast, Reshape/MustReshape to right and wrong sizes, aliasing of reshape/unroll results, and one binary operation (CopyFrom, ApplySlice, Scale, AddTo, ApplyFunc1) against a second view of either contiguity (Scale / AddTo / ApplyFunc1 in one case of five with the destination itself as the source; CopyFrom in one case of three with a source smaller than the destination, which lands in its leading corner), all compared with the row-major element-wise definition on the extensional model; "
              "plus the integer helpers (Offsets, IDivMod, Increment, Product, Multiply, Argmax, Maximum) on random vectors. Non-trivial = the view is non-contiguous, stepped or reshaped, or the binary operation has mixed contiguity or works in place, or a helper case of rank >= 2; distinct = distinct case",
         assumptions=[],
         quick=dict(stages=[st(6000, timeout=600)]),
@@ -117,12 +117,12 @@ CHECKS = {
     "C12": dict(
         require={'InstreamFineSediment:deposition': 0.005, 'InstreamFineSediment:remobilisation': 0.005, 'LumpedConstituentRouting:flush': 0.02, '__nontrivial__': 0.2},
         pkg="c12", level="exploration",
-        rule="rapid-generated cases for the eight constituent models (parameters in range; load/flow/volume series with zero-flow and near-empty steps forced: volume and outflow zero or below/above the 0.01 m^3 threshold together; initial stored masses 0 or >0, fine sediment also negative = fraction of capacity; both branches of each model), stepped one timestep at a time with carried states so that the stored mass after every step is visible; "
+        rule="rapid-generated cases for the eight constituent models (parameters in range; load/flow/volume series with zero-flow and near-empty steps forced: volume and outflow zero or below/above the 0.01 m^3 threshold together; initial stored masses 0 or >0, fine sediment also negative = fraction of capacity; both branches of each model; fine sediment: overbank steps forced in half of the cases with a bank-full flow), stepped one timestep at a time with carried states so that the stored mass after every step is visible; "
              "oracle: per-step and whole-run budget stored_before + in*dt = out*dt + deposited/trapped/decayed/floodplain + stored_after within 1e-9 relative, the documented flush (working volume < 0.01 m^3: nothing leaves, stored mass dropped) as the only permitted loss, loads and in-stream stores >= 0 for non-negative inputs, remobilisation <= channel store, channel store = previous + reported net deposition. "
              "Non-trivial = the run visits >= 2 branches of the model; distinct = distinct case",
         assumptions=["forcing values below 1e-6 of the series scale are snapped to zero (a reach volume of 1e-300 m^3 overflows concentration = mass/volume; not data)",
                      "StorageTrapAll has no timestep parameter: its budget is taken in the units it reports"],
-        quick=dict(stages=[st(4000, timeout=900)]),
+        quick=dict(stages=[st(4000, shards=8, timeout=900)]),
         thorough=dict(stages=[st(0, fuzz="FuzzMassConserved", fuzztime="60s", timeout=600), st(60000, shards=16, timeout=3500)]),
     ),
     "C13": dict(
@@ -150,7 +150,7 @@ CHECKS = {
         require={'budget-suffices': 0.03, 'query:between-knots': 0.05},
         pkg="c18", level="exploration",
         rule="FindRoot: rapid-generated continuous functions (monotone piecewise-linear with flat pieces and kinks, power and exponential families, non-monotone waves with f(min)<0<f(max)), any initial guess, tolerance 1e-12..1, iteration limit 0..60, derivative none/exact/wrong/zero, convergence limit arbitrary or small enough not to pre-empt halving; every evaluation point recorded: inside [min,max] and not NaN, returned x inside, returned value == f(x), monotone: |value| <= better end, and < tolerance whenever the limit >= ceil(log2(L*(max-min)/tol))+1 (tolerance resolvable in floating point). "
-             "Piecewise: strictly increasing tables of 2..12 knots (also as stepped views), queries at knots, between, just outside, far outside, NaN, +-Inf: error exactly outside/NaN, knots within 4 ulp, interpolant within 1e-12 and between the neighbouring values. Non-trivial = root search of >= 3 iterations or non-monotone function / query strictly between knots; distinct = distinct case",
+             "Piecewise: strictly increasing tables of 2..12 knots (also as stepped views, and - one case in three - as adjacent contiguous views of one array, the way the wrappers slice tables out of a parameter block, with the surrounding elements compared afterwards), queries at knots, between, just outside, far outside, NaN, +-Inf: error exactly outside/NaN, knots within 4 ulp, interpolant within 1e-12 and between the neighbouring values. Non-trivial = root search of >= 3 iterations or non-monotone function / query strictly between knots; distinct = distinct case",
         assumptions=["classes where a bracket end is already within the tolerance, or the iteration limit is 0, only assert: point inside, value = f(point), evaluations inside"],
         quick=dict(stages=[st(10000, timeout=900)]),
         thorough=dict(stages=[st(0, fuzz="FuzzPiecewise", fuzztime="60s", timeout=600), st(0, fuzz="FuzzFindRoot", fuzztime="60s", timeout=600), st(220000, shards=16, timeout=3500)]),
